@@ -15,7 +15,7 @@ Local Open Scope N_scope.
 (* ------------------------------------------------------------------ tactics *)
 
 (* let lia reason about division and remainder by constants *)
-Ltac Zify.zify_post_hook ::= Z.div_mod_to_equations.
+Ltac Zify.zify_post_hook ::= Z.to_euclidean_division_equations.
 
 Ltac nb :=
   repeat match goal with
@@ -162,29 +162,27 @@ Qed.
 
 Lemma enc_printable v : forall b, enc v = Some b -> printable b.
 Proof.
-  induction v using jv_ind'; intros out H; cbn in H.
-  - inversion H. fa.
-  - inversion H. destruct b; fa.
+  induction v as [| b0 | z | f | s | l IHl | l IHl] using jv_ind'; intros out Henc; cbn in Henc.
+  - inversion Henc. unfold lit_null. fa.
+  - inversion Henc. destruct b0; [unfold lit_true | unfold lit_false]; fa.
   - eapply enc_int_printable; eauto.
-  - inversion H. apply enc_float_printable.
+  - inversion Henc. apply enc_float_printable.
   - eapply enc_str_printable; eauto.
   - destruct (sequence (map enc l)) as [parts|] eqn:E; [|discriminate].
-    inversion H; subst; clear H. apply sequence_Forall2 in E.
+    inversion Henc; subst; clear Henc. apply sequence_Forall2 in E.
     assert (Forall printable parts) as Hp.
-    { revert H0. induction E; intros HF; constructor; inversion HF; subst; auto. }
-    constructor; [lia|]. apply printable_app; [now apply printable_join|].
-    fa.
+    { revert IHl. induction E; intros HF; constructor; inversion HF; subst; auto. }
+    apply Forall_cons; [lia|]. apply printable_app; [now apply printable_join|]. fa.
   - destruct (sequence (map (enc_member enc) l)) as [parts|] eqn:E; [|discriminate].
-    inversion H; subst; clear H. apply sequence_Forall2 in E.
+    inversion Henc; subst; clear Henc. apply sequence_Forall2 in E.
     assert (Forall printable parts) as Hp.
-    { revert H0. induction E as [|kv p l' ps Hkv E IH]; intros HF; constructor; inversion HF; subst; auto.
+    { revert IHl. induction E as [|kv p l' ps Hkv E IH]; intros HF; constructor; inversion HF; subst; auto.
       destruct kv as [k x]. cbn in Hkv. destruct k as [s|]; [|discriminate].
       destruct (enc_str s) as [a|] eqn:Ea; [|discriminate].
       destruct (enc x) as [bx|] eqn:Ex; [|discriminate].
       inversion Hkv; subst. apply printable_app; [eapply enc_str_printable; eauto|].
-      constructor; [lia|]. cbn in H1. now apply H1. }
-    constructor; [lia|]. apply printable_app; [now apply printable_join|].
-    fa.
+      apply Forall_cons; [lia|]. cbn in H1. now apply H1. }
+    apply Forall_cons; [lia|]. apply printable_app; [now apply printable_join|]. fa.
 Qed.
 
 Lemma encode_enc v b : encode v = Some b -> enc v = Some b.
@@ -216,15 +214,15 @@ Definition msg_events (md : mode) (m : jv) : list event :=
 Lemma dest_call_events md m f : fst (dest_call md m f) = f ++ msg_events md m.
 Proof.
   unfold dest_call, msg_events. destruct (dumps_line md m); cbn.
-  - now rewrite <- app_assoc.
-  - now rewrite app_nil_r.
+  - now rewrite <- List.app_assoc.
+  - now rewrite List.app_nil_r.
 Qed.
 
 Lemma run_events md ms : forall f, run md ms f = f ++ flat_map (msg_events md) ms.
 Proof.
   unfold run. induction ms as [|m ms IH]; intros f; cbn.
-  - now rewrite app_nil_r.
-  - rewrite IH, dest_call_events, <- app_assoc. reflexivity.
+  - now rewrite List.app_nil_r.
+  - rewrite IH, dest_call_events, <- List.app_assoc. reflexivity.
 Qed.
 
 Theorem C10_events_lemma : forall md ms f,
@@ -257,7 +255,7 @@ Theorem dest_call_atomic : forall md m f,
   (snd (dest_call md m f) = false /\ exists d, fst (dest_call md m f) = f ++ [Write d; Flush]).
 Proof.
   intros md m f. unfold dest_call. destruct (dumps_line md m) as [d|]; cbn.
-  - right. split; auto. exists d. now rewrite <- app_assoc.
+  - right. split; auto. exists d. now rewrite <- List.app_assoc.
   - left. auto.
 Qed.
 
@@ -275,7 +273,7 @@ Proof. vm_compute. reflexivity. Qed.
 
 Lemma content_app f g : content (f ++ g) = content f ++ content g.
 Proof.
-  induction f as [|e f IH]; cbn; auto. destruct e; auto. now rewrite IH, app_assoc.
+  induction f as [|e f IH]; cbn; auto. destruct e; auto. now rewrite IH, List.app_assoc.
 Qed.
 
 Definition no_nl (b : bytes) : Prop := ~ In 10 b.
@@ -283,10 +281,10 @@ Definition no_nl (b : bytes) : Prop := ~ In 10 b.
 Lemma split_on_app a r cur :
   no_nl a -> split_on 10 (a ++ 10 :: r) cur = (cur ++ a) :: split_on 10 r [].
 Proof.
-  revert cur. induction a as [|x a IH]; intros cur H; cbn [split_on app].
-  - now rewrite app_nil_r.
+  revert cur. induction a as [|x a IH]; intros cur H; cbn [split_on List.app].
+  - now rewrite List.app_nil_r.
   - destruct (N.eqb_spec x 10) as [->|Hx]; [exfalso; apply H; now left|].
-    rewrite IH; [now rewrite <- app_assoc | intros Hin; apply H; now right].
+    rewrite IH; [now rewrite <- List.app_assoc | intros Hin; apply H; now right].
 Qed.
 
 Definition terminated (ls : list bytes) : bytes := concat (map (fun b => b ++ [10]) ls).
@@ -295,15 +293,15 @@ Lemma split_terminated ls :
   Forall no_nl ls -> split_lines (terminated ls) = ls ++ [[]].
 Proof.
   unfold split_lines, terminated. induction 1 as [|a ls Ha Hls IH]; cbn; auto.
-  rewrite <- app_assoc. cbn. rewrite split_on_app by exact Ha. cbn. now rewrite IH.
+  rewrite <- List.app_assoc. cbn. rewrite split_on_app by exact Ha. cbn. now rewrite IH.
 Qed.
 
 Lemma terminated_ends ls : terminated ls = [] \/ exists p, terminated ls = p ++ [10].
 Proof.
   unfold terminated. induction ls as [|a ls IH]; cbn; auto.
   right. destruct IH as [E | [p E]]; rewrite E.
-  - exists a. now rewrite app_nil_r.
-  - exists ((a ++ [10]) ++ p). now rewrite app_assoc.
+  - exists a. now rewrite List.app_nil_r.
+  - exists ((a ++ [10]) ++ p). now rewrite List.app_assoc.
 Qed.
 
 Lemma encodings_no_nl ms : Forall no_nl (encodings ms).
@@ -317,7 +315,7 @@ Lemma content_binary_events ms :
 Proof.
   unfold terminated. induction ms as [|m ms IH]; cbn; auto.
   rewrite content_app, IH. unfold msg_events, dumps_line.
-  destruct (encode m); cbn; auto. now rewrite app_nil_r.
+  destruct (encode m); cbn; auto. now rewrite List.app_nil_r.
 Qed.
 
 Lemma content_open md : content (dest_open md []) = [].
